@@ -72,6 +72,7 @@ def run_and_check(rec, F, cnt, prefix='C04', check_temp=True):
     fptr = 0
     tptr = 0
     capped = False
+    left_domain = False
     D = core.Digest()
     minC = m.constraints.minComposition
     for ci, op in enumerate(rec['ops']):
@@ -164,9 +165,16 @@ def run_and_check(rec, F, cnt, prefix='C04', check_temp=True):
                         F.add(prefix + '.dirichlet', f'call {ci} step {j}: fixed-composition node {node} of element {els[ei]} is {x_new[ei, node]!r}, was {v0!r} after the first setup', when='step')
             # --- a flux condition can pump the solutes past sum(x) = 1 (the model validates this only at the next setup):
             #     from then on the state is outside the admissible domain and the run is no longer judged
+            if not np.all(np.isfinite(x_new)):
+                # a non-finite profile (steps forced above the stability limit, undefined mobilities) is outside what C04 states: stop judging
+                cnt['nonfinite_state'] = cnt.get('nonfinite_state', 0) + 1
+                capped = True
+                left_domain = True
+                break
             if np.any(np.sum(x_new, axis=0) >= 1 - minC):
                 cnt['left_admissible_domain'] = cnt.get('left_admissible_domain', 0) + 1
                 capped = True
+                left_domain = True
                 break
             # --- bounds
             if np.any(x_new < minC) or np.any(x_new > 1 - minC) or not np.all(np.isfinite(x_new)):
@@ -185,7 +193,8 @@ def run_and_check(rec, F, cnt, prefix='C04', check_temp=True):
         if float(m.t) != t_start + op['k'] * dt0:
             F.add(prefix + '.end_time', f'solve call {ci} ended at {m.t!r}, requested {t_start + op["k"] * dt0!r}', where='solver')
     # --- closed system: cumulative drift
-    if closed and x_ref0 is not None and cnt['clip_steps'] == 0:
+    # (only for runs judged to their end: after a domain exit the model keeps stepping, and clipping, beyond the last judged step)
+    if closed and x_ref0 is not None and cnt['clip_steps'] == 0 and not left_domain:
         sig.add('closed')
         for ei, e in enumerate(els):
             drift = float(np.sum(m.x[ei]) - np.sum(x_ref0[ei]))
